@@ -85,3 +85,16 @@ static void run_9005(const ShapeDesc& sd, RunCtl& ctl) {
 static const ShapeDesc shape_9005 = {9005, "unifex::then(unifex::then(unifex::into_variant(unifex::let_value(e.leaf(0), [=](T& v) { return unifex::just_from([=] { return copy(v); }); })), e.ivfn(2)), e.fn(1))", nodes_9005, 5, 0, 1, 3, &run_9005};
 static Reg reg_9005(&shape_9005);
 }  // namespace
+namespace {
+using namespace ef;
+// P9006: dematerialize(materialize(x)) completes with done although its traits said sends_done == false (fixed)
+static const NodeDesc nodes_9006[] = {
+  {K_MATDEMAT, 1, 0, 1, {1, 0, 0, 0, 0}, 'E'},
+  {K_LEAFV, 2, 0, 0, {0, 0, 0, 0, 0}, 'E'}
+};
+static void run_9006(const ShapeDesc& sd, RunCtl& ctl) {
+  run_shape_impl<Cfg<1>>(sd, ctl, [](auto e) { return unifex::dematerialize(unifex::materialize(e.leafv(0))); });
+}
+static const ShapeDesc shape_9006 = {9006, "unifex::dematerialize(unifex::materialize(e.leafv(0)))", nodes_9006, 2, 0, 1, 1, &run_9006};
+static Reg reg_9006(&shape_9006);
+}  // namespace
